@@ -1,7 +1,10 @@
 CONSTANTS Alphabet = {0, 255, 7}
-          MaxTotal = 9
+          MaxTotal = 8
           MaxChunk = 6
+          MaxResets = 1
+          BugResetKeepsTail = FALSE
 INIT Init
 NEXT Next
 INVARIANT Refines
+INVARIANT ResetIsFresh
 CHECK_DEADLOCK FALSE
